@@ -79,8 +79,59 @@ fn digest(h: u64, o: &Obs) -> u64 {
     mix(mix(mix(h, x1), x2), x3)
 }
 
+/// Conversions the crate does NOT have today (`From<u32>`, `From<i64>`, … for `FileMode`) are probed at compile time with
+/// autoref specialisation: when an impl exists the first trait applies and the conversion is exercised, otherwise the
+/// fall-back answers `None` ("absent"). A newly added integer entry point is thereby inside the check the day it appears
+/// (seed C18-9: `From<u32>` forwarding through an `as i32` cast that wraps 0xFFFF8000.. into the accepted range).
+struct Probe<T>(std::marker::PhantomData<T>);
+trait ViaFrom<T> {
+    fn conv(&self, v: T) -> Option<FileMode>;
+}
+impl<T> ViaFrom<T> for Probe<T>
+where
+    FileMode: From<T>,
+{
+    fn conv(&self, v: T) -> Option<FileMode> {
+        Some(FileMode::from(v))
+    }
+}
+trait NoFrom<T> {
+    fn conv(&self, v: T) -> Option<FileMode>;
+}
+impl<T> NoFrom<T> for &Probe<T> {
+    fn conv(&self, _v: T) -> Option<FileMode> {
+        None
+    }
+}
+macro_rules! probe {
+    ($t:ty, $n:expr) => {{
+        match <$t>::try_from($n) {
+            Ok(v) => match (&Probe::<$t>(std::marker::PhantomData)).conv(v) {
+                Some(m) => fmt(&observe(m, m.to_result().is_err())),
+                None => "absent".to_string(),
+            },
+            Err(_) => "unrepresentable".to_string(),
+        }
+    }};
+}
+
 pub fn eval(op: &str, a: &[&str]) -> Option<String> {
     match op {
+        "fmx" => {
+            // `fmx <type> <n>`: the conversion from that integer type, if the crate has one
+            let n: i128 = a.get(1)?.parse().ok()?;
+            Some(match *a.first()? {
+                "u8" => probe!(u8, n),
+                "i8" => probe!(i8, n),
+                "i16" => probe!(i16, n),
+                "u32" => probe!(u32, n),
+                "i64" => probe!(i64, n),
+                "u64" => probe!(u64, n),
+                "usize" => probe!(usize, n),
+                "isize" => probe!(isize, n),
+                _ => return None,
+            })
+        }
         "fm16" => {
             let w: u16 = a.first()?.parse().ok()?;
             let m = FileMode::from(w);
@@ -131,6 +182,20 @@ pub fn gen(ctx: &mut Ctx) {
             ctx.req(&format!("fm16 {}", w));
             for k in ["reg", "dir", "sym"] {
                 ctx.req(&format!("fmctor {} {}", k, w));
+            }
+        }
+    }
+    // integer types the crate has no conversion for today (probed; "absent" unless someone adds one)
+    {
+        let pts: [i128; 22] = [0, 1, 0o644, 0o100644, 0o40755, 0o120777, 32767, 32768, 65535, 65536, 70000, 0xFFFF_81A4, 0xFFFF_8000, 0xFFFF_7FFF,
+                               0xFFFF_FFFF, 0x1_0000_81A4, -1, -32768, -32769, 0x7FFF_FFFF, -0x8000_0000, 0x8000_0000];
+        let mut k = 0u64;
+        for t in ["u8", "i8", "i16", "u32", "i64", "u64", "usize", "isize"] {
+            for n in pts.iter() {
+                k += 1;
+                if mine(k) {
+                    ctx.req(&format!("fmx {} {}", t, n));
+                }
             }
         }
     }
